@@ -396,11 +396,6 @@ pub fn run(ctx: &Ctx, rep: &mut Report) {
         rep.stats.terminals += f.len() as u64;
         cases.extend(f);
     }
-    if ctx.replay.is_none() {
-        // the <= 1-attribute slice through the real pipeline
-        let inputs: Vec<crate::conform::Input> = cases.iter().filter(|c| c.kind != "interleave" && !c.vector.is_empty() && c.input.matches("#[").count() <= 1 && !c.input.trim_start().starts_with("#[derive_ex")).map(|c| crate::conform::Input { entry: crate::expand::Entry::Attr, attr: c.attr.clone(), item: c.input.clone() }).collect();
-        crate::conform::validate(rep, "c14p", &inputs);
-    }
     let evals = par_map(&cases, threads(), |_, c| evaluate(c));
     for (c, e) in cases.iter().zip(evals.iter()) {
         rep.case(&format!("{} {}", c.attr, c.input), c.input != c.expected || c.input.contains("#["));
@@ -421,5 +416,10 @@ pub fn run(ctx: &Ctx, rep: &mut Report) {
         rep.stats.transitions += sv.len() as u64;
         rep.stats.terminals += sv.len() as u64;
         crate::xrun::run_and_compare(rep, "c14s", &sv);
+    }
+    if ctx.replay.is_none() {
+        // the <= 1-attribute slice through the real pipeline
+        let inputs: Vec<crate::conform::Input> = cases.iter().filter(|c| c.kind != "interleave" && !c.vector.is_empty() && c.input.matches("#[").count() <= 1 && !c.input.trim_start().starts_with("#[derive_ex")).map(|c| crate::conform::Input { entry: crate::expand::Entry::Attr, attr: c.attr.clone(), item: c.input.clone() }).collect();
+        crate::conform::validate_or_die(rep, "c14p", &inputs);
     }
 }
